@@ -130,7 +130,15 @@ def r_printer(ctx, rule="R6"):
         label = "fmt=%s repeated=%s quoted=%s trailing=%s fieldsep=%r kvsep=%r ignore_escapes=%s keep_order=%s mapping=%s" % (
             cfg["fmt"], cfg["repeated keys"], cfg["quoted GFF2 values"], cfg["trailing semicolon"], cfg["field separator"], cfg["keyval separator"], cfg["_ignore"],
             cfg.get("_keep_order"), mp or "default")
-        traces = printer.run(ctx, rc, cfg, mp)
+        try:
+            traces = printer.run(ctx, rc, cfg, mp)
+        except Unsupported as e:
+            # the symbolic template does not apply to this formulation of the printer (it inspects the characters of a value
+            # in a way the string-with-holes domain cannot follow): the literal round trip decides alone
+            if not ctx.extra.get("printer_template_skipped"):
+                ctx.extra["printer_template_skipped"] = str(e)
+                ctx.note("the symbolic printer template does not cover this formulation of _reconstruct (%s): decided on literal values only" % e)
+            break
         exp = printer.spec_tokens(cfg, mp)
         for t in traces:
             n += 1
@@ -179,9 +187,7 @@ def r_roundtrip(ctx, rule="R3"):
     from ..absint import Unsupported
     sk = require_func(ctx, "parser._split_keyvals")
     pats = regex_patterns(ctx, "parser")
-    pat = None
-    for k, v in pats.items():
-        pat = (k, v)
+    pat = dict(pats)       # every compiled pattern of the parser module, by name
     n = 0
     reported = set()
     nonlist = []
@@ -194,7 +200,8 @@ def r_roundtrip(ctx, rule="R3"):
                    sig="round trip: %s" % kind, detail=detail)
     runs = []
     for fam, cfg in printer.parse_configs():
-        for mp in printer.PARSE_MAPPINGS + printer.PARSE_MAPPINGS_ESCAPES + (printer.PARSE_MAPPINGS_QUOTED if cfg["quoted GFF2 values"] else []):
+        for mp in printer.PARSE_MAPPINGS + printer.PARSE_MAPPINGS_ESCAPES + (printer.PARSE_MAPPINGS_QUOTED if cfg["quoted GFF2 values"] else []) + \
+                (printer.PARSE_MAPPINGS_QUOTED_SEMI if cfg["quoted GFF2 values"] and " " in cfg["field separator"] else []):
             runs.append((fam, cfg, mp, False))
         # the ignore_url_escape_characters switch: nothing is decoded, in any dialect
         if cfg["field separator"] == ";" and not cfg["trailing semicolon"]:
@@ -209,7 +216,7 @@ def r_roundtrip(ctx, rule="R3"):
             for k, v in mp:
                 want[k] = []
                 for x in v:
-                    if x.startswith("lit:") or " " in x or "=" in x:
+                    if x.startswith("lit:") or " " in x or "=" in x or ";" in x:
                         want[k].append(printer.value_name(x, decoded=decodes))
                     elif cfg["fmt"] == "gff3" and ignore:
                         want[k].append("enc(%s)" % x)     # written encoded, read back as written
@@ -259,6 +266,53 @@ def r_roundtrip(ctx, rule="R3"):
     ctx.assume("template round trip: attribute values are opaque and free of the structural characters %r; keys are plain words" % printer.STRUCTURAL)
 
 
+def r_literal(ctx, rule="R3"):
+    """Literal round trip: concrete values containing the structural characters themselves are printed with every consistent
+    dialect and the printed text is parsed back, with the dialect supplied and inferred."""
+    from .. import printer
+    from ..absint import Unsupported
+    rc = require_func(ctx, "parser._reconstruct")
+    sk = require_func(ctx, "parser._split_keyvals")
+    pat = dict(regex_patterns(ctx, "parser"))       # every compiled pattern of the parser module, by name
+    n = 0
+    seen = set()
+
+    def fail(kind, detail):
+        if kind not in seen:
+            seen.add(kind)
+            ctx.ob(rule, False, "a mapping whose values contain reserved characters is printed with the dialect as the encode set prescribes and parses back to itself "
+                   "(GFF3-style dialects; GTF-style dialects for values free of ';', '\"', ',' and control characters)", func=sk, sig="literal round trip: %s" % kind, detail=detail)
+    for fam, cfg in printer.parse_configs():
+        gff3 = cfg["fmt"] == "gff3"
+        for mp in (printer.LITERAL_GFF3 if gff3 else printer.LITERAL_PLAIN):
+            if not gff3 and not cfg["quoted GFF2 values"] and any(" " in x for _k, vs in mp for x in vs):
+                continue          # unquoted GFF2 values cannot carry blanks
+            if cfg["repeated keys"] is False and False:
+                continue
+            try:
+                text, parsed = printer.literal_roundtrip(ctx, rc, sk, pat, cfg, mp)
+            except Unsupported as e:
+                ctx.require(False, "printer / parser outside the analysable subset on a literal mapping: %s" % e)
+            n += 1
+            label = "%s, fieldsep=%r trailing=%s repeated=%s" % (fam, cfg["field separator"], cfg["trailing semicolon"], cfg["repeated keys"])
+            if not isinstance(text, str):
+                fail("printing %s" % (text,), label)
+                continue
+            want_text = printer.spec_text(cfg, mp, encode=gff3)
+            if text != want_text:
+                fail("printed text differs from what the dialect and the encode set denote (%s)" % ("gff3" if gff3 else fam), "%s :: printed %r, expected %r" % (label, text, want_text))
+                continue
+            want = {k: list(vs) for k, vs in mp}
+            for mode, got in parsed.items():
+                if got != want:
+                    diff = sorted(k for k in set(want) | set(got if isinstance(got, dict) else {}) if not isinstance(got, dict) or got.get(k) != want.get(k))
+                    fail("printed mapping does not parse back (%s dialect, %s)" % (mode, "gff3" if gff3 else fam),
+                         "%s :: text %r parsed (%s dialect) to %s, expected %s" % (label, text, mode, {k: got.get(k) for k in diff} if isinstance(got, dict) else got, {k: want.get(k) for k in diff}))
+    ctx.floor(rule, n, 30, "literal round trips")
+    ctx.ob(rule, not seen, "literal round trip evaluated on %d (dialect, mapping) pairs" % n, func=sk,
+           sig="literal round trip holds" if not seen else "literal round trip fails (%d kinds)" % len(seen))
+
+
 def check(ctx):
     ctx.explanation = (
         "Both halves of the round trip are decided on templates by the partitioned string dataflow (strings with holes; no solver): "
@@ -272,6 +326,7 @@ def check(ctx):
     r1(ctx)
     r_printer(ctx)
     r_roundtrip(ctx)
+    r_literal(ctx)
     from . import c01
     n0 = len(ctx.obs)
     c01.r5(ctx)
